@@ -1508,7 +1508,9 @@ func (self *Aof) LoadAofFile(filename string, lock *AofLock, expriedTime int64, 
 			lock.data = nil
 		}
 
-		if lock.ExpriedFlag&protocol.EXPRIED_FLAG_MILLISECOND_TIME != 0 {
+		if lock.ExpriedFlag&protocol.EXPRIED_FLAG_UNLIMITED_EXPRIED_TIME != 0 {
+			// never ended by time, whatever unit flag accompanies it
+		} else if lock.ExpriedFlag&protocol.EXPRIED_FLAG_MILLISECOND_TIME != 0 {
 			if int64(lock.CommandTime+uint64(lock.ExpriedTime)/1000) <= expriedTime {
 				continue
 			}
@@ -1516,7 +1518,7 @@ func (self *Aof) LoadAofFile(filename string, lock *AofLock, expriedTime int64, 
 			if int64(lock.CommandTime+uint64(lock.ExpriedTime)*60) <= expriedTime {
 				continue
 			}
-		} else if lock.ExpriedFlag&protocol.EXPRIED_FLAG_UNLIMITED_EXPRIED_TIME == 0 {
+		} else {
 			if lock.ExpriedTime > 0 && int64(lock.CommandTime+uint64(lock.ExpriedTime)) <= expriedTime {
 				continue
 			}
